@@ -46,9 +46,13 @@ def driver_shape(ctx, d, name):
     ls = s.loops[lp['loop']]
     lw = '%s:%s' % (ls.node.where(), base)
     # in order over the list of calls
-    calls_list = sym('iteration_calls')
-    if ls.node.op == 'rangefor' and lp['lo'] == ZERO and lp['hi'] == T.size(calls_list):
-        ctx.holds('R1.in_order', lw, 'range-for over iteration_calls: iterations in list order')
+    calls_list = calls_list_term(d)
+    if lp['lo'] is None or lp['hi'] is None:
+        raise AnalysisBroken('%s: the iteration loop of %s is not a counting loop this analysis recognises '
+                             '(range-for, index or iterator loop over the list of calls)' % (lw, base))
+    if lp['lo'] == ZERO and lp['hi'] == T.size(calls_list):
+        ctx.holds('R1.in_order', lw, 'the loop runs over positions 0 .. |iteration_calls| in order (%s)'
+                  % ls.node.op)
     else:
         ctx.violation('R1.in_order', lw, 'the iteration loop does not run over iteration_calls in order',
                       {'lo': T.pretty(lp['lo']), 'hi': T.pretty(lp['hi']), 'kind': ls.node.op})
@@ -265,7 +269,7 @@ def check(ctx):
             where = fsite(f)
             inner = [e for e, l in flat_effects(s.effects) if e['kind'] == 'hcall'
                      and e['name'] == 'hep::callback::operator()']
-            if len(inner) != 1 or inner[0]['pc'] != () or inner[0]['args'] != [sym('chkpt')]:
+            if len(inner) != 1 or inner[0]['pc'] != () or inner[0]['args'] != [sym(f.params[-1].name)]:
                 ctx.violation('R4.mpi_same_decision', where, 'mpi_callback does not call the inner '
                               'callback exactly once, unconditionally, on the checkpoint')
                 return
